@@ -34,7 +34,7 @@ ASSUMPTIONS = [
 # ------------------------------------------------------------------------------ strategies
 def bp_strategy():
     return st.fixed_dictionaries({
-        "k": st.sampled_from(["time", "count", "type", "mod", "tge"]),
+        "k": st.sampled_from(["time", "count", "type", "mod", "tge", "metric", "metric"]),
         "v": st.integers(0, 12),
         "one": st.booleans(),
     })
@@ -96,14 +96,30 @@ def processed_events(log):
     for e in log:
         if e[0] == "D":
             kind_of[e[4]] = e[3]
-            out.append((e[1], e[3]))
+            out.append((e[1], e[3], e[2]))
         elif e[0] == "R":
-            out.append((e[1], kind_of.get(e[2], -1)))
+            out.append((e[1], kind_of.get(e[2], -1), None))
     return out
 
 
-def bp_holds(bp, k, ev):
+METRIC_OPS = ["eq", "le", "lt", "ge", "gt", "ne"]
+
+
+def metric_spec(v):
+    """(entity index, operator, threshold) of a MetricBreakpoint on the scripted entities' public counter `mod3`."""
+    return v % 2, METRIC_OPS[v % 6], (v // 2) % 3
+
+
+def bp_holds(bp, k, ev, P=None):
     kind, v = bp["k"], bp["v"]
+    if kind == "metric":
+        import operator as _op
+        ent, op, thr = metric_spec(v)
+        seen = sum(1 for x in (P or [])[:k] if x[2] == ent)
+        if not any(x[2] == ent for x in (P or [])) and seen == 0:
+            pass        # the entity may still exist (value 0) or not exist at all; existence is decided by the caller
+        val = seen % 3
+        return {"eq": _op.eq, "le": _op.le, "lt": _op.lt, "ge": _op.ge, "gt": _op.gt, "ne": _op.ne}[op](val, thr)
     if kind == "count":
         return k >= v
     if kind == "time" or kind == "tge":
@@ -123,6 +139,7 @@ class ControlModel:
         self.pause_req = False
         self.steps = None
         self.pauses = set(pauses)
+        self.n_entities = 1
         self.hook_bps = {}       # processed-event index -> [breakpoint specs armed by an event hook at that event]
         self.cause = None
 
@@ -150,7 +167,8 @@ class ControlModel:
                 self.pause_req = True
             ev = self.P[self.k - 1]
             self.bps.extend(self.hook_bps.pop(self.k, []))     # hooks run before the breakpoint check of the same event
-            hit = [b for b in self.bps if bp_holds(b, self.k, ev)]
+            hit = [b for b in self.bps if not (b["k"] == "metric" and metric_spec(b["v"])[0] >= self.n_entities)
+                   and bp_holds(b, self.k, ev, self.P)]
             if hit:
                 self.cause = "breakpoint/" + hit[0]["k"]
                 self.bps = [b for b in self.bps if not (b in hit and b["one"])]
@@ -160,8 +178,11 @@ class ControlModel:
 def make_bp(bp):
     from happysimulator import Instant
     from happysimulator.core.control.breakpoints import (ConditionBreakpoint, EventCountBreakpoint, EventTypeBreakpoint,
-                                                         TimeBreakpoint)
+                                                         MetricBreakpoint, TimeBreakpoint)
     k, v, one = bp["k"], bp["v"], bool(bp["one"])
+    if k == "metric":
+        ent, op, thr = metric_spec(v)
+        return MetricBreakpoint(entity_name=f"e{ent}", attribute="mod3", operator=op, threshold=thr, one_shot=one)
     if k == "count":
         return EventCountBreakpoint(count=v, one_shot=one)
     if k == "time":
@@ -224,6 +245,7 @@ def execute_observe(obl):
                 ctl = sim.control
                 pauses = [p for p in obs.get("pauses", []) if isinstance(p, int) and p >= 1]
                 model = ControlModel(P_ev, pauses)
+                model.n_entities = max(1, int(prog["n"]))
                 counter = [0]
                 seen_adv = []
 
